@@ -16,7 +16,7 @@ from . import canon
 from .workload import Gen, mk, call_repr, wchoice, res_of
 from .minimise import Budget, ddmin
 
-MUT_HOW = ['clear', 'append', 'reverse', 'overwrite', 'pop']
+MUT_HOW = ['clear', 'append', 'reverse', 'overwrite', 'pop', 'inner']
 
 
 def _usable_call(g, ctx, mix, base, tries=6):
